@@ -17,7 +17,8 @@ def main():
         try:
             import coverage
             os.environ.setdefault("COVERAGE_CORE", "sysmon")
-            cov = coverage.Coverage(data_file=None, source=[os.path.join(core.REPO, "src", "ZConfig")], messages=False)
+            save = os.environ.get("ZCV_COVERAGE_SAVE")   # directory: keep the raw data (tools/covunion.py)
+            cov = coverage.Coverage(data_file=(os.path.join(save, a.prop + ".cov") if save else None), source=[os.path.join(core.REPO, "src", "ZConfig")], messages=False)
             cov.start()
             core._coverage = cov
         except Exception:
